@@ -51,11 +51,12 @@ class TableEngine:
     @classmethod
     def gen_cfg(cls, rng, prop, tier):
         cfg = {}
-        cfg["max_steps"] = rng.choice([4, 6, 8, 12, 16, 24, 32, 40], "max_steps")
-        cfg["max_dim"] = rng.choice([2, 3, 4, 6, 8, 10], "max_dim")
-        cfg["max_rep"] = rng.choice([2, 3, 3, 5, 8], "max_rep")
+        deep = tier == "thorough"
+        cfg["max_steps"] = rng.choice([4, 6, 8, 12, 16, 24, 32, 40] + ([48, 60] if deep else []), "max_steps")
+        cfg["max_dim"] = rng.choice([2, 3, 4, 6, 8, 10] + ([12] if deep else []), "max_dim")
+        cfg["max_rep"] = rng.choice([2, 3, 3, 5, 8] + ([12] if deep else []), "max_rep")
         cfg["p_rep"] = rng.choice([0.0, 0.15, 0.3, 0.5], "p_rep")
-        cfg["p_big"] = rng.choice([0.0, 0.0, 0.02], "p_big")
+        cfg["p_big"] = rng.choice([0.0, 0.0, 0.02] + ([0.05] if deep else []), "p_big")
         cfg["p_warm"] = rng.choice([0.0, 0.1, 0.3, 0.6] if prop != "C02" else [0.2, 0.4, 0.6, 0.8], "p_warm")
         cfg["p_restart"] = rng.choice([0.0, 0.03, 0.1], "p_restart")
         cfg["p_strform"] = rng.choice([0.0, 0.2, 0.5], "p_strform")
